@@ -189,7 +189,16 @@ impl Bus {
             }
             (a, b) => {
                 self.log.push(json!({"t": "connect-failed", "cl": i,
-                    "conn": a.map(|x| x.is_ok()).unwrap_or(false), "client": b.map(|x| x.is_ok()).unwrap_or(false)}));
+                    "conn": a.as_ref().map(|x| x.is_ok()).unwrap_or(false), "client": b.as_ref().map(|x| x.is_ok()).unwrap_or(false)}));
+                // the broker may have accepted the connection although the client's side of the handshake
+                // failed: its connection task must run, or nobody ever tells the broker that the peer is gone
+                // (a connection whose task is never run stays registered by design, DESIGN 2.5)
+                if let Some(Ok(conn)) = a {
+                    self.exec.spawn(format!("conn{i}-orphan"), async move {
+                        let _ = conn.run().await;
+                    });
+                }
+                drop(b);
                 None
             }
         }
